@@ -15,7 +15,7 @@ LEVEL = "exploration"
 RULE = (
     "Generated: operator in {zip, combine_latest, with_latest_from, fork_join, amb} x form {reactivex.<fn>(*srcs), "
     "srcs[0].pipe(ops.<op>(*rest)) (amb: chain of binary ops.amb)} over 1..4 logged virtual-time sources (cold / hot / "
-    "cold emitting its t=0 burst inside subscribe), conforming timelines of 0..5 elements with gaps 0..3 (same-instant "
+    "cold emitting its t=0 burst inside subscribe), conforming timelines of 0..5 (thorough 0..8) elements with gaps 0..3 (same-instant "
     "bursts and cross-source ties), terminal in {completed, error, none}, element values unique per source position or "
     "falsy (None, 0, False, '', []), subscription at virtual tick 0..3 (hot elements at or before it are missed). "
     "Oracle: an independent replay of the merged source-event list (order inside one instant = hot sources in creation "
@@ -32,7 +32,10 @@ RULE = (
     "is subscribed before the primary (so values delivered at subscription time are present when a synchronously "
     "emitting primary fires; the all-sources-emit-inside-subscribe idiom is generated on purpose). Non-trivial: >=2 sources and (>=1 output "
     "element or the output terminated while some source still had events to deliver / never terminates). "
-    "Distinct = distinct case JSON."
+    "Distinct = distinct case JSON. 'small2' additionally enumerates exhaustively every pair of two-source timelines with "
+    "<=2 elements at ticks {0,1} and terminal in {none, C at last tick, C one tick later, E at last tick} for every "
+    "operator and the source-kind pairs cold/cold (both forms), hot/cold, in-subscribe/cold (function form; thorough: all "
+    "nine kind pairs x both forms) under the same oracle."
 )
 ASSUMPTIONS = [
     "sources are well-behaved (conforming timelines); all sources are subscribed at one virtual instant",
@@ -500,12 +503,43 @@ def _case(draw, max_len=5):
     return {"op": op, "form": form, "srcs": srcs, "sub_at": draw(st.sampled_from([0, 0, 1, 2, 3]))}
 
 
+def _small_timelines(i):
+    """All conforming timelines with <=2 elements at ticks {0,1} and terminal in {none, C@last, C@last+1, E@last}."""
+    out = []
+    for ticks in ([], [0], [1], [0, 0], [0, 1], [1, 1]):
+        base = [[t, "N", f"n:{(i + 1) * 100 + k}"] for k, t in enumerate(ticks)]
+        last = ticks[-1] if ticks else 0
+        out.append(base)
+        out.append(base + [[last, "C", None]])
+        out.append(base + [[last + 1, "C", None]])
+        out.append(base + [[last, "E", f"e{i}"]])
+    return out
+
+
+def _small2(tier):
+    """Exhaustive two-source family: every pair of small timelines (ties at ticks 0/1, empty, erroring, silent) x every
+    operator x both forms x source-kind pairs."""
+    kinds = [("cold", "cold"), ("hot", "cold"), ("sync", "cold")]
+    if tier != "quick":
+        kinds += [("cold", "sync"), ("cold", "hot"), ("hot", "hot"), ("sync", "sync"), ("sync", "hot"), ("hot", "sync")]
+    a_tls, b_tls = _small_timelines(0), _small_timelines(1)
+    for op in OPS:
+        for form in ("fn", "op"):
+            for ka, kb in kinds:
+                if tier == "quick" and form == "op" and (ka, kb) != ("cold", "cold"):
+                    continue  # quick: the operator form (a thin wrapper over the function form) only for cold/cold
+                for ta in a_tls:
+                    for tb in b_tls:
+                        yield {"op": op, "form": form, "srcs": [{"kind": ka, "tl": ta}, {"kind": kb, "tl": tb}], "sub_at": 0}
+
+
 def checks(tier):
     return [
+        Check("small2", _run, cases=_small2, shards={"quick": 8, "thorough": 16}, exhaustive=True),
         Check(
             "pairing",
             _run,
-            strategy=_case(5 if tier == "quick" else 6),
+            strategy=_case(5 if tier == "quick" else 8),
             examples={"quick": 6000, "thorough": 16 * 30000},
             shards={"quick": 4, "thorough": 16},
         ),
